@@ -9,6 +9,7 @@ pub mod data;
 pub mod serial;
 pub mod validation;
 pub mod transpose;
+pub mod stamql;
 
 pub fn run(family: &str, opts: &Opts) -> Option<Report> {
     // "family@m<interval>s<0|1>" runs the family under a store configuration variant
@@ -40,6 +41,7 @@ fn run_base(family: &str, opts: &Opts) -> Option<Report> {
         "serial" => Some(serial::run(opts)),
         "validation" => Some(validation::run(opts)),
         "transpose" => Some(transpose::run(opts)),
+        "stamql" => Some(stamql::run(opts)),
         _ => None,
     }
 }
@@ -53,6 +55,7 @@ pub fn exec_line(line: &str) -> Option<String> {
         Some("find") => Some(related::exec_line(line)),
         Some("txt") => Some(textops::exec_line(line)),
         Some("dv") => Some(data::exec_line(line)),
+        Some("ql") => Some(stamql::exec_line(line)),
         _ => None,
     }
 }
